@@ -45,11 +45,10 @@ func (f *Filter) Filter(subject any) {
 		v.ResultsFilteredByACLs = f.filterCheckServiceNodes(&v.Nodes)
 
 	case *structs.IndexedServiceTopology:
+		// The flags report what THIS run removed: a blocking query re-runs on the same reply.
 		filtered := f.filterServiceTopology(v.ServiceTopology)
-		if filtered {
-			v.FilteredByACLs = true
-			v.ResultsFilteredByACLs = true
-		}
+		v.FilteredByACLs = filtered
+		v.ResultsFilteredByACLs = filtered
 
 	case *structs.DatacenterIndexedCheckServiceNodes:
 		v.ResultsFilteredByACLs = f.filterDatacenterCheckServiceNodes(&v.DatacenterNodes)
@@ -67,9 +66,7 @@ func (f *Filter) Filter(subject any) {
 		f.filterIntentionMatch(v)
 
 	case *structs.IndexedNodeDump:
-		if f.filterNodeDump(&v.Dump) {
-			v.ResultsFilteredByACLs = true
-		}
+		v.ResultsFilteredByACLs = f.filterNodeDump(&v.Dump)
 		if f.filterNodeDump(&v.ImportedDump) {
 			v.ResultsFilteredByACLs = true
 		}
@@ -134,6 +131,7 @@ func (f *Filter) Filter(subject any) {
 		v.ResultsFilteredByACLs = f.filterServiceList(&v.Services)
 
 	case *structs.IndexedExportedServiceList:
+		v.ResultsFilteredByACLs = false
 		for peer, peerServices := range v.Services {
 			if f.filterServiceList(&peerServices) {
 				v.ResultsFilteredByACLs = true
@@ -149,9 +147,7 @@ func (f *Filter) Filter(subject any) {
 		v.ResultsFilteredByACLs = f.filterGatewayServices(&v.Services)
 
 	case *structs.IndexedNodesWithGateways:
-		if f.filterCheckServiceNodes(&v.Nodes) {
-			v.ResultsFilteredByACLs = true
-		}
+		v.ResultsFilteredByACLs = f.filterCheckServiceNodes(&v.Nodes)
 		if f.filterGatewayServices(&v.Gateways) {
 			v.ResultsFilteredByACLs = true
 		}
